@@ -138,7 +138,7 @@ Theorem fill_whole_dl : forall dl m fuel w k t,
     w_sess w' = set_reader (w_sess w) (rd w') /\ w_inq w' = [] /\ w_script w' = [] /\ w_now w' = w_now w.
 Proof.
   intros dl. induction m as [|m IH]; intros fuel w k t Hat Hm Hf Hs HB Hq Hq0;
-    (destruct fuel as [|f]; [lia|]); cbn [fill_packet_reader]; fold (rd w).
+    (destruct fuel as [|f]; [lia|]); unfold fill_packet_reader; cbn [fill_go]; fold (rd w).
   all: pose proof (at_k_len _ _ Hat) as Hrb.
   all: destruct (packet_available (rd w)) eqn:Ea.
   (* a complete packet is already there *)
@@ -164,7 +164,7 @@ Proof.
       destruct (fill_step_dl dl f w r' win t (dropN k P) Ea Er E0 Hs Hinq Ht (dropN_nonempty k HkL) ltac:(rewrite Hlen; lia))
         as [w2 [Ef [S2 [C2 [N2 I2]]]]].
       replace (N.min win (lenN (dropN k P))) with win in S2, I2 by (rewrite Hlen; lia).
-      cbn [fill_packet_reader] in Ef. fold (rd w) in Ef. rewrite Ea, Er in Ef.
+      unfold fill_packet_reader in Ef. cbn [fill_go] in Ef. fold (rd w) in Ef. rewrite Ea, Er in Ef.
       destruct (N.eqb_spec win 0); [contradiction|]. rewrite Ef.
       assert (Hat2 : at_k (rd w2) (k + win)).
       { unfold rd. rewrite S2. cbn [set_reader s_reader]. unfold at_k.
